@@ -67,17 +67,23 @@ theorem writeToConsumer_ids (a : App) (k : Consumer) (r : Bytes) (kick : Bool) :
     ⟨by simp [App.assignedIds, List.filterMap_append, writeEvents_aid], rfl, rfl⟩
   exact SameIds.trans h1 (writeToConsumer_ids_aux _ k (k.written + r.length) k.expected)
 
+theorem finishAttach_ids (a : App) (ex : Option Nat) (fc : Bool) (s rest : List Act) :
+    SameIds a (finishAttach a ex fc s rest).1 := by
+  simp only [finishAttach]
+  have h1 : SameIds a { a with consumer := some { cid := a.nextCid, written := 0, expected := ex, cb := none },
+                               nextCid := a.nextCid + 1, fcConsumer := fc } := ⟨rfl, rfl, rfl⟩
+  split
+  · exact SameIds.trans h1 (writeToConsumer_ids _ _ [] true)
+  · exact h1
+
 theorem attachConsumer_order (a : App) (ex : Option Nat) (fc : Bool) (s rest : List Act) (hi : OrderInv a) :
     OrderInv (attachConsumer a ex fc s rest).1 := by
   simp only [attachConsumer]
   split
   · exact (sameIds_emit a _ (by simp [Ev.aid])).inv hi
-  · have h1 : SameIds a { a with consumer := some { cid := a.nextCid, written := 0, expected := ex, cb := none },
-                                 nextCid := a.nextCid + 1, fcConsumer := fc, log := a.log ++ [.reg] } :=
+  · have h1 : SameIds a { a with log := a.log ++ [.reg] } :=
       ⟨by simp [App.assignedIds, List.filterMap_append, Ev.aid], rfl, rfl⟩
-    split
-    · exact (SameIds.trans h1 (writeToConsumer_ids _ _ [] true)).inv hi
-    · exact h1.inv hi
+    exact (SameIds.trans h1 (finishAttach_ids _ ex fc s rest)).inv hi
 
 theorem fireRead_ids (a : App) (d : Reader) (r : Bytes) :
     (fireRead a d r).1.assignedIds = a.assignedIds ++ [d.id] ∧ ids (fireRead a d r).1.waiting = ids a.waiting ∧
